@@ -18,6 +18,7 @@ use core_affinity::CoreId;
 
 use futures::io::{AsyncRead, AsyncReadExt, AsyncWrite, AsyncWriteExt};
 use rand::random;
+use tokio::sync::{OwnedSemaphorePermit, Semaphore};
 use tokio_util::sync::CancellationToken;
 use tokio_util::task::TaskTracker;
 use tracing::{error, info, trace, warn};
@@ -258,6 +259,10 @@ struct ConnManagerInner<ST: Service> {
   /// The message buffer pool.
   message_buffer_pool: Pool,
 
+  /// Permits for the message buffers a write batch holds beyond its first one
+  /// (the `MAX_IOVS` head-room of the message buffer pool).
+  write_batch_permits: Arc<Semaphore>,
+
   /// The payload buffer pool.
   payload_buffer_pool: BucketedPool,
 
@@ -331,6 +336,7 @@ impl<ST: Service> ConnManager<ST> {
       next_handler: 1,
       active_connections: Arc::new(AtomicU32::new(0)),
       message_buffer_pool,
+      write_batch_permits: Arc::new(Semaphore::new(MAX_IOVS)),
       payload_buffer_pool,
       task_tracker,
       shutdown_token,
@@ -384,6 +390,7 @@ impl<ST: Service> ConnManager<ST> {
 
     let config = inner.config.clone();
     let message_buffer_pool = inner.message_buffer_pool.clone();
+    let write_batch_permits = inner.write_batch_permits.clone();
     let payload_buffer_pool = inner.payload_buffer_pool.clone();
     let active_connections = inner.active_connections.clone();
     let shutdown_token = inner.shutdown_token.clone();
@@ -449,6 +456,7 @@ impl<ST: Service> ConnManager<ST> {
       close_rx,
       shutdown_token,
       message_buffer_pool,
+      write_batch_permits,
       payload_buffer_pool,
       payload_read_timeout,
       max_payload_size,
@@ -778,6 +786,7 @@ impl<D: Dispatcher> Conn<D> {
     close_rx: Receiver<Message>,
     shutdown_token: CancellationToken,
     message_buffer_pool: Pool,
+    write_batch_permits: Arc<Semaphore>,
     payload_buffer_pool: BucketedPool,
     payload_read_timeout: Duration,
     max_payload_size: usize,
@@ -802,6 +811,7 @@ impl<D: Dispatcher> Conn<D> {
         close_rx,
         &shutdown_token,
         message_buffer_pool.clone(),
+        write_batch_permits.clone(),
         payload_buffer_pool.clone(),
         payload_read_timeout,
         max_payload_size,
@@ -845,6 +855,7 @@ impl<D: Dispatcher> Conn<D> {
     close_rx: Receiver<Message>,
     shutdown_token: &CancellationToken,
     message_buffer_pool: Pool,
+    write_batch_permits: Arc<Semaphore>,
     payload_buffer_pool: BucketedPool,
     payload_read_timeout: Duration,
     max_payload_size: usize,
@@ -865,6 +876,7 @@ impl<D: Dispatcher> Conn<D> {
 
     let mut message_buffers_batch: Vec<PoolBuffer> = Vec::with_capacity(MAX_IOVS);
     let mut payload_buffers_batch: Vec<Option<PoolBuffer>> = Vec::with_capacity(MAX_IOVS);
+    let mut batch_permits: Vec<OwnedSemaphorePermit> = Vec::with_capacity(MAX_IOVS);
 
     let mut iovs = vec![IoSlice::new(&[]); MAX_IOVS * 3].into_boxed_slice();
 
@@ -1014,12 +1026,20 @@ impl<D: Dispatcher> Conn<D> {
                 break;
             }
 
+            // Grow the batch only out of the pool's shared head-room, and never wait for it: a connection
+            // waiting for more buffers while holding some (or blocked writing to a slow peer with the whole
+            // head-room and more in hand) would starve every other connection of write buffers.
+            let Ok(batch_permit) = write_batch_permits.clone().try_acquire_owned() else {
+                break;
+            };
+
             match send_msg_rx.try_recv() {
               Ok((message, payload_opt)) => {
                   let message_buff = Self::serialize_message(&message, message_buffer_pool.acquire_buffer().await)?;
 
                   message_buffers_batch.push(message_buff);
                   payload_buffers_batch.push(payload_opt);
+                  batch_permits.push(batch_permit);
               },
               Err(TryRecvError::Empty) => break,
               Err(TryRecvError::Closed) => {
@@ -1040,6 +1060,7 @@ impl<D: Dispatcher> Conn<D> {
 
           message_buffer_pool.release_buffers(&mut message_buffers_batch);
           payload_buffers_batch.clear();
+          batch_permits.clear();
         },
 
         // Close the connection.
